@@ -240,6 +240,7 @@ RECURSIVE BulkKey(_)
 BulkKey(i) == <<107>> \o (IF i < 10 THEN <<48 + i>> ELSE Tail(BulkKey(i \div 10)) \o <<48 + (i % 10)>>)
 ExpandObj(o) == IF "runs" \in DOMAIN o THEN [t |-> "list", items |-> ExpandRuns(o.runs, 1)]
                 ELSE IF "kbulk" \in DOMAIN o THEN [t |-> "dict", items |-> [i \in 1..o.kbulk |-> <<BulkKey(i - 1), o.v>>]]
+                ELSE IF "ibulk" \in DOMAIN o THEN [t |-> "dict", items |-> [i \in 1..o.ibulk |-> << <<-2>> \o Tail(BulkKey(i - 1)), o.v>>]]   \* int keys 0 .. n-1
                 ELSE o
 ExpandHeap(hp) == [a \in 1..Len(hp) |-> ExpandObj(hp[a])]
 
